@@ -182,6 +182,61 @@ def two_sessions(version, hist1, hist2, seed, thr1, thr2, drop_first=False):
     return run, out, heads
 
 
+def two_connections(va, vb, hist_a, hist_b, seed, thr_a, thr_b):
+    """Two Connection objects alive at the same time on different protocol versions (one process, one networking thread
+    each): each session must be the session its own server script describes.  Returns one trace per connection."""
+    from minecraft.networking.packets import Packet
+    profs = [Profile(va), Profile(vb)]
+    rng = random.Random(seed)
+    hists = [[concretise(profs[i], rng, k, v) for (k, v) in h] for i, h in enumerate((hist_a, hist_b))]
+    run = Run(seed=seed, chunk='random')
+    scripts = {}
+
+    def factory(idx, sess):
+        i = min(idx, 1)
+        sc = TracingScript(run, profs[i], [])
+        steps = play_steps(sc, profs[i], hists[i][:-1], (thr_a, thr_b)[i], None)
+        # both sessions are kept open until both have been served: the final disconnect waits for the other script
+        steps += [('pause', 'fin'), sc.tagged(hists[i][-1][2], hists[i][-1][0], hists[i][-1][1])]
+        sc.steps = steps
+        return sc
+    run.serve(factory)
+    conns = []
+
+    def scenario(run):
+        for i, v in enumerate((va, vb)):
+            c = run.make_connection(allowed_versions={v})
+            c.register_packet_listener(lambda p, i=i: run.ev('deliver', p=packet_obs(p, profs[i]), conn=i), Packet)
+            conns.append(c)
+            c.connect()
+        run.settle()
+        for sc in list(run.scripts):
+            sc.resume('fin')
+        for t in list(run.installed.started):
+            run.sched.yield_point(blocked_on=lambda t=t: t._vt.finished)
+    run.go(scenario)
+    out = []
+    for i in (0, 1):
+        ev = []
+        for e in run.trace:
+            if e.get('conn') != i:
+                continue
+            if e['k'] == 'srv':
+                ev.append({'k': 'srv', 'p': e['p']})
+            elif e['k'] == 'deliver' and e['p'][0] != 'other':
+                ev.append({'k': 'deliver', 'p': e['p']})
+            elif e['k'] == 'c2s' and e['f']['t'] not in ('handshake', 'login_start'):
+                ev.append({'k': 'c2s', 'p': client_obs(e['f'], profs[i])})
+        sc = run.scripts[i] if i < len(run.scripts) else None
+        if sc is not None and sc.client_closed:
+            ev.append({'k': 'closed'})
+        ev.append({'k': 'exit'})        # exit callbacks are counted for the run as a whole (below)
+        if len(conns) > i and getattr(conns[i], 'spawned', False):
+            ev.append({'k': 'spawned'})
+        out.append({'tp': profs[i].ge(107), 'ev': ev, 'version': (va, vb)[i]})
+    return run, out
+
+
 def pending_write_scenario(version, seed, n_pending, policy=None):
     """The server sends its disconnect packet and closes while the client still has packets queued: the failing write
     is not an error (the disconnect packet explains it): clean exit, exit callback once, no error reported."""
@@ -362,6 +417,25 @@ def run(chk):
             chk.violation('play:two-sessions:%s' % run_.outcome, 'two sessions on one Connection at protocol %d (thresholds %r then %r): '
                           'execution %s, %d TCP connections, errors %r' % (version, thr1, thr2, run_.outcome, len(run_.scripts), run_.errors[:2]),
                           {'version': version})
+        all_traces += trs
+
+    # ---- 3a''. two connections alive at once on different versions (state shared between objects must not leak)
+    for j in range(12 if quick else 150):
+        hr = random.Random(chk.seed * 613 + j)
+        va, vb = hr.sample(sup, 2)
+        if j % 2 == 0:      # opposite sides of the boundaries that matter in play: teleport confirm (107), keep-alive width (339)
+            va, vb = hr.choice([v for v in sup if known.index(v) < known.index(107)]), hr.choice([v for v in sup if known.index(v) >= known.index(339)])
+            if j % 4 == 0:
+                va, vb = vb, va
+        ha = random_history(hr, hr.randint(3, 20), known.index(va) >= known.index(339))
+        hb = random_history(hr, hr.randint(3, 20), known.index(vb) >= known.index(339))
+        thr_a, thr_b = [(None, None), (0, None), (None, 64), (1, 256)][j % 4]
+        run_, trs = two_connections(va, vb, ha, hb, chk.seed * 9173 + j, thr_a, thr_b)
+        chk.traces += 1
+        chk.case(('two-connections', j))
+        if run_.outcome != 'done' or len(run_.scripts) != 2 or run_.exits != 2 or run_.errors:
+            chk.violation('play:two-connections:%s' % run_.outcome, 'two live connections at protocols %d and %d: execution %s, %d TCP connections, '
+                          '%d exit callbacks, errors %r' % (va, vb, run_.outcome, len(run_.scripts), run_.exits, run_.errors[:2]), {'versions': [va, vb]})
         all_traces += trs
 
     # ---- 3b. the disconnect packet arrives while writes are pending (they fail: not an error)
